@@ -16,6 +16,18 @@ PROPS = {
         "technique": "Lean 4 proof (structural induction over F with a three-mode soundness invariant) + differential correspondence + VM execution oracle",
         "design_ref": "DESIGN.md §6 C15/C41, notes/flow.md",
     },
+    "C41": {
+        "harness": "vh-flow",
+        "level_text": "Partial, and the pinned tree violates the full statement (three open known findings keyed by syntactic predicates of the input program). Kernel-checked: C41_witness (by decide: after `local k=nil; while not k do k='x' end` the model of bind_while_stat/get_type_at_flow infers `nil` at a probe the run reaches with a string) plus the witnesses for the generic-for exit and the missing back edge; C41_partial: for EVERY program of FL (F + while c / while true / repeat-until / numeric for with literal bounds / for-in / conditional break, any nesting, no size bound) whose loop bodies contain no assignment, every terminating run and every probe reached (inside bodies, on exit paths, after loops) has its value contained in the inferred type (induction on the fuel of the big-step semantics). The model of the loop binders is compared on every run with SemanticModel::infer_expr at every probe (exact member lists, including the programs inside the findings' predicates — the model reproduces the defects), its semantics with the luars VM and with a harness-side interpreter, and the property's oracle (VM runtime type in inferred type at every reached probe) runs on the implementation; failures count as known only when the program satisfies a listed predicate.",
+        "level_note": "Trusted: Lean kernel, harness + serialisers, correspondence run as the tie, luars as execution oracle. Not covered by a theorem (search only): loops whose bodies assign variables (that is where the defect lives), `continue`, `goto`, numeric for with non-literal bounds, everything outside F (see C15).",
+        "trusted_base": FLOW_TB,
+        "assumptions": [
+            "theorem fragment: loop bodies contain no assignment; runs terminate within the fuel given (no bound on the fuel)",
+            "open findings C41-while-exit, C41-generic-for-exit, C41-no-back-edge suppress oracle failures only for programs that satisfy their syntactic predicate",
+        ],
+        "technique": "Lean 4 proof (witness by decide, partial soundness by induction on fuel) + differential correspondence + VM execution oracle",
+        "design_ref": "DESIGN.md §5 row C41, §6 C15/C41, notes/flow.md",
+    },
 }
 
 HOOK_COMMITS = []
